@@ -200,6 +200,7 @@ class SpecGen:
         self.cse_blocks = []  # (sheet, r1, c1, r2, c2)
         self.pinned = []
         self.cur_sheet = None
+        self.ranges_used = []   # plain rectangles written literally in the current formula
 
     # -- layout -------------------------------------------------------------
     def grid_addr(self, sheet, i):
@@ -327,6 +328,8 @@ class SpecGen:
                 # sheet prefix applies to the first corner only in Excel; keep it local
                 return self.range_text(*rect), self.rect_addrs(rect)
             return txt, self.rect_addrs(rect)
+        self.ranges_used.append(
+            f'{sheet}!{rc_coord(r1, c1)}:{rc_coord(r2, c2)}')
         return self.range_text(*rect), self.rect_addrs(rect)
 
     # -- expressions ----------------------------------------------------------
@@ -416,6 +419,7 @@ class SpecGen:
 
     def formula(self):
         for _ in range(8):
+            self.ranges_used = []
             t, p, d = self.expr()
             if p or d:
                 break
@@ -474,7 +478,10 @@ class SpecGen:
                     self.add({'a': a, 'v': draw_const(rnd, kinds)})
                 else:
                     f, p, d = self.formula()
-                    self.add({'a': a, 'f': f, 'p': p, 'd': d})
+                    cell = {'a': a, 'f': f, 'p': p, 'd': d}
+                    if self.ranges_used:
+                        cell['r'] = uniq(self.ranges_used)
+                    self.add(cell)
                 self.filled[sheet] = i + 1
                 # defined names now and then
                 if k['names'] and rnd.random() < 0.12 and len(self.names) < 3:
